@@ -1053,9 +1053,12 @@ fn gen_tval(rng: &mut Rng, ty: &str, depth: usize) -> String {
         };
     }
     if let Some(inner) = ty.strip_prefix("vec(").and_then(|s| s.strip_suffix(')')) {
+        let simple = matches!(inner, "i32" | "bool" | "unit" | "opt(bool)");
         let n = match rng.below(8) {
             0 => 0,
             1 if depth == 0 => *rng.pick(&[15usize, 16, 17, 32, 33]),
+            // now and then a long vector: header widths and the inline-length limit of the read side
+            2 if depth == 0 && simple && rng.chance(1, 6) => *rng.pick(&[255usize, 256, 257, 1000]),
             _ => rng.range(0, 4) as usize,
         };
         let items: Vec<String> = (0..n).map(|_| gen_tval(rng, inner, depth + 1)).collect();
@@ -1065,6 +1068,7 @@ fn gen_tval(rng: &mut Rng, ty: &str, depth: usize) -> String {
         let n = match rng.below(8) {
             0 => 0,
             1 if depth == 0 => *rng.pick(&[15usize, 16, 17]),
+            2 if depth == 0 && inner == "i32" && rng.chance(1, 8) => *rng.pick(&[255usize, 256, 257]),
             _ => rng.range(0, 4) as usize,
         };
         let mut keys: Vec<Vec<u8>> = Vec::new();
